@@ -1,11 +1,15 @@
 #!/bin/bash
-# usage: commit_prop.sh Cxx "message"  -- register a property check and commit exactly its files
+# usage: commit_prop.sh Cxx "message"  -- register a property check and commit exactly its files (checkpoint).
+# Safe to call concurrently from several builders: serialised by a lock; only Cxx's MANIFEST entry is refreshed.
 set -e
 cd /verif
 P=$1; p=$(echo $P | tr 'A-Z' 'a-z')
+mkdir -p build
+exec 9> build/.commit.lock
+flock 9
 grep -qw $P tools/registered.txt || sed -i "s/$/ $P/" tools/registered.txt
-/venv/bin/python tools/mk_manifest.py > /dev/null
-git add tools/registered.txt MANIFEST.json known_findings.json
+/venv/bin/python tools/mk_manifest.py --only $P > /dev/null
+git add tools/registered.txt MANIFEST.json
 for f in coq/model/${P}_*.v coq/proof/${P}_*.v coq/props/${P}_*.v coq/lib/${P}_*.v tools/props/$p.py tools/gens/$p.py tools/gens/${p}_*.py corpus/$P evidence/$P.json; do
   [ -e $f ] && git add $f
 done
